@@ -10,7 +10,7 @@ THEOREMS = ["tables_match_spec", "same_table_lookup", "float_tables_close", "kin
             "unit_ratio_moles", "unknown_unit_refused", "stable_activity_refused"]
 REQUIRED = ["Props/C05.v", "Model/UnitsCheck.v"]
 TRANSLATORS = ["tr_pure", "tr_tables", "tr_data"]
-SHAPE_KEYS = ["load_dataset"]
+SHAPE_KEYS = ["load_dataset", "InventoryHP::__init__", "AbstractInventory::__init__", "AbstractInventory::add", "AbstractInventory::subtract"]
 PARTIAL = ["few-ulp read-back of the FLOAT class is decided per case (bit-exact correspondence + 8-ulp predicate on the "
            "implementation), not by a rounding theorem (Flocq instantiation not built)",
            "high-precision class: theorems hold for the exact tables (same generated functions); correspondence for InventoryHP is in C08/C12 streams"]
